@@ -210,8 +210,23 @@ fn main() {
     selfcheck();
     let mut rep = Report::new();
 
-    // ---- workload 1: generated scenarios
-    let n = ctx.tier.pick(30_000, 1_500_000);
+    // ---- workload 1 (small, first so that a tight budget cannot starve it): javac corpus (bridges javac really emits), generated mapping sets
+    let corpus = cf::corpus::load(&ctx.verif_dir);
+    let mut groups: BTreeMap<String, Vec<(String, Vec<u8>)>> = BTreeMap::new();
+    for (name, bytes) in corpus { let g = name.split('/').next().unwrap_or("").to_string(); groups.entry(g).or_default().push((name, bytes)); }
+    let groups: Vec<(String, Vec<(String, Vec<u8>)>)> = groups.into_iter().collect();
+    let per = ctx.tier.pick(40u64, 1000);
+    run_cases(&ctx, &replay, &mut rep, "corpus", groups.len() as u64 * per, |rng, rep, i| {
+        let (g, files) = &groups[(i % groups.len() as u64) as usize];
+        let mut classes = vec![];
+        for (n, b) in files { match cf::parse::parse(b) { Ok(m) => classes.push(emitc::from_model(&m)), Err(e) => { eprintln!("HARNESS-ERROR independent parser rejects corpus class {n}: {e}"); std::process::exit(3) } } }
+        let sc = corpus_scenario(rng, classes);
+        rep.count("corpus.jars");
+        judge(rep, &sc, files, &[], rng, &format!("corpus {g}"));
+    });
+
+    // ---- workload 2: generated scenarios
+    let n = ctx.tier.pick(20_000, 400_000);
     run_cases(&ctx, &replay, &mut rep, "generated", n, |rng, rep, i| {
         let sc = gen::gen_scenario(rng, i);
         let bad = |s: String| -> ! { eprintln!("HARNESS-ERROR C15 (case {i}): {s}"); std::process::exit(3) };
@@ -220,21 +235,6 @@ fn main() {
         rep.count(&format!("requested.name_source.{}", sc.requested.0));
         rep.count(&format!("requested.target.{}", sc.requested.1));
         judge(rep, &sc, &main_bytes, &lib_bytes, rng, "generated");
-    });
-
-    // ---- workload 2: javac corpus (bridges javac really emits), generated mapping sets
-    let corpus = cf::corpus::load(&ctx.verif_dir);
-    let mut groups: BTreeMap<String, Vec<(String, Vec<u8>)>> = BTreeMap::new();
-    for (name, bytes) in corpus { let g = name.split('/').next().unwrap_or("").to_string(); groups.entry(g).or_default().push((name, bytes)); }
-    let groups: Vec<(String, Vec<(String, Vec<u8>)>)> = groups.into_iter().collect();
-    let per = ctx.tier.pick(40u64, 1500);
-    run_cases(&ctx, &replay, &mut rep, "corpus", groups.len() as u64 * per, |rng, rep, i| {
-        let (g, files) = &groups[(i % groups.len() as u64) as usize];
-        let mut classes = vec![];
-        for (n, b) in files { match cf::parse::parse(b) { Ok(m) => classes.push(emitc::from_model(&m)), Err(e) => { eprintln!("HARNESS-ERROR independent parser rejects corpus class {n}: {e}"); std::process::exit(3) } } }
-        let sc = corpus_scenario(rng, classes);
-        rep.count("corpus.jars");
-        judge(rep, &sc, files, &[], rng, &format!("corpus {g}"));
     });
 
     let mut meta = Meta::new("exploration",
